@@ -32,6 +32,9 @@ def main():
         if what == "selftest":
             import selftest
             return selftest.run(args)
+        if what == "coverage":
+            import coverage_check
+            return coverage_check.run(args)
         if what == "all":
             rc = 0
             for pid in PROPS:
